@@ -18,7 +18,10 @@ def main():
             print("missing", p)
             ok = False
     build.ensure_built()
-    mods = sorted(glob.glob(os.path.join(tlc.VERIF, "specs", "[CX]*", "*.tla")))
+    # only integrated ids (tools/integrated.txt): specifications still being built are not parsed here
+    with open(os.path.join(tlc.VERIF, "tools", "integrated.txt")) as f:
+        ids = f.read().split()
+    mods = sorted(m for i in ids for m in glob.glob(os.path.join(tlc.VERIF, "specs", i, "*.tla")))
     fails = []
     procs = []
     for m in mods:
